@@ -44,6 +44,9 @@ type c04Case struct {
 	ExtOn    [][2]int `json:"ext_on"` // external-trigger input high during row-times [a,b) (row-time = frame*rows+row)
 	Mix      []c04Mix `json:"mix,omitempty"`
 	Gap      *c04Gap  `json:"gap,omitempty"`
+	// Prior: an earlier, complete run on the same source object (other geometry, often the same number of channels),
+	// judged like any run; the main run follows after a new Configure.
+	Prior *c04Case `json:"prior,omitempty"`
 }
 
 func (c *c04Case) valid() bool {
@@ -294,9 +297,32 @@ func (k *c04Card) release() {
 var c04Counter int
 
 func c04Run(c c04Case) (v vVerdict) {
-	if !c.valid() {
+	if !c.valid() || (c.Prior != nil && (!c.Prior.valid() || c.Prior.Prior != nil)) {
 		return v
 	}
+	ls, err := NewLanceroSource()
+	if err != nil {
+		return vFailf("harness", "NewLanceroSource: %v", err)
+	}
+	if c.Prior != nil {
+		pv := c04RunOn(ls, *c.Prior)
+		if pv.Fail || pv.Inconclusive != "" {
+			return pv
+		}
+		v = c04RunOn(ls, c)
+		if v.Fail {
+			v.Msg = fmt.Sprintf("second run on the same source (first run: %d cols x %d rows): %s", c.Prior.Cols, c.Prior.Rows, v.Msg)
+		}
+		v.Classes = append(v.Classes, "second-run-other-geometry")
+		if c.Prior.Cols*c.Prior.Rows == c.Cols*c.Rows {
+			v.Classes = append(v.Classes, "second-run-same-channel-count")
+		}
+		return v
+	}
+	return c04RunOn(ls, c)
+}
+
+func c04RunOn(ls *LanceroSource, c c04Case) (v vVerdict) {
 	W := c.Cols * c.Rows
 	fs := 4 * W
 	c04Counter++
@@ -345,10 +371,6 @@ func c04Run(c c04Case) (v vVerdict) {
 		card.holds[m.AfterChunk] = true
 	}
 
-	ls, err := NewLanceroSource()
-	if err != nil {
-		return vFailf("harness", "NewLanceroSource: %v", err)
-	}
 	ls.devices = map[int]*LanceroDevice{0: {devnum: 0, card: card}}
 	ls.ncards = 1
 	cfg := &LanceroSourceConfig{FiberMask: 0xffff, ActiveCards: []int{0}, CardDelay: []int{1}, FirstRow: 1}
@@ -898,6 +920,27 @@ func c04Gen(t *rapid.T) c04Case {
 			g.LenWords = rapid.IntRange(1, 4*W).Draw(t, "gaplen")
 		}
 		c.Gap = g
+	}
+	if rapid.IntRange(0, 3).Draw(t, "prior") == 0 {
+		// the same source object has run before, with another geometry
+		p := &c04Case{Nsamp: c.Nsamp, Seed: c.Seed + 17}
+		var shapes [][2]int
+		for cols := 1; cols <= 8; cols++ {
+			if W%cols == 0 && W/cols >= 2 && W/cols <= 16 && cols != c.Cols {
+				shapes = append(shapes, [2]int{cols, W / cols})
+			}
+		}
+		if len(shapes) > 0 && rapid.IntRange(0, 3).Draw(t, "priorsame") != 0 {
+			sh := rapid.SampledFrom(shapes).Draw(t, "priorshape")
+			p.Cols, p.Rows = sh[0], sh[1]
+		} else {
+			p.Cols = rapid.SampledFrom([]int{1, 2, 3, 4}).Draw(t, "priorcols")
+			p.Rows = rapid.SampledFrom([]int{2, 3, 4, 8}).Draw(t, "priorrows")
+		}
+		pfs := 4 * p.Cols * p.Rows
+		p.Chunks = []int{5 * pfs, 3 * pfs, 4 * pfs}
+		p.NFrames = 15
+		c.Prior = p
 	}
 	return c
 }
